@@ -669,7 +669,19 @@ pub fn gen_c10(rng: &mut Rng) -> Value {
         audit_what: &["metadata", "list"],
         wcfg: WriteCfg { by_hash_pct: 0, rich_opts: true, declare_size_pct: 10, algos: false, ends: false },
     };
-    gen_history(rng, &m)
+    let mut sc = gen_history(rng, &m);
+    if !many && rng.chance(1, 8) {
+        // a torn tail (crash in the middle of the last append, possibly inside a multi-byte character): listing and
+        // lookup must still agree with each other, entry by entry
+        let nk = sc["keys"].as_array().map(|a| a.len()).unwrap_or(1);
+        if let Some(steps) = sc["steps"].as_array_mut() {
+            steps.push(json!({"k":"env","act":"truncate_frac","bucket":rng.idx(nk),"num":rng.range(700, 999)}));
+            for f in PURE {
+                steps.push(json!({"k":"audit","bin":f.0,"mode":f.1,"what":["metadata","list"]}));
+            }
+        }
+    }
+    sc
 }
 
 pub fn gen_c16(rng: &mut Rng) -> Value {
